@@ -294,6 +294,47 @@ def p7(): return lambda z: add3(z)(2)(3)
 def deep(a): return a.c.Select(lambda y: y.d.Select(lambda z: z.q + y.r + a.s))
 def d8(ds): return ds.Select(lambda z: deep(z.k))
 def p8(): return lambda z: deep(z.k)
+# --- round 5: parameter kinds, defaults, new names, what must not be inlined
+def inner_kw(x, *, k=1): return x.f(k)
+def outer_kw(k): return inner_kw(k, k=k.n)
+def add_to_all(x): return x.vals.Select(lambda q, y=x: q.g(y.off))
+def table(a): return a.rows.Select(lambda x_2: a.cols.Select(lambda x: x.h(x_2)))
+def five_plus(a): return (lambda x, *rest: a.f(x, rest))(x=5)
+SHIFT = 1
+def shifted(x, by=SHIFT, *, kby=SHIFT): return x.f(by, kby)
+SHIFT = 2
+class Calib:
+    def corrected(self, x): return x.c(1)
+corrected = Calib().corrected
+import functools
+def doubled(fn):
+    @functools.wraps(fn)
+    def w(*a): return fn(*a).twice
+    return w
+@doubled
+def next_one(x): return x.nxt
+def registered(f): return lambda g: g
+@registered(lambda x: x.decoy)
+def after_deco(x): return x.real
+def nothing(x): return
+def d9(ds): return ds.Select(lambda e: outer_kw(e))
+def d10(ds): return ds.Select(lambda e: add_to_all(e))
+def d11(ds): return ds.Select(lambda x: table(x))
+def d12(ds): return ds.Select(lambda x: five_plus(x))
+def d13(ds): return ds.Select(lambda e: shifted(e.v))
+def d14(ds): return ds.Select(lambda e: corrected(e.v))
+def d15(ds): return ds.Select(lambda e: next_one(e.v))
+def d16(ds): return ds.Select(lambda e: after_deco(e))
+def d17(ds): return ds.Select(lambda e: (nothing(e), e.v))
+def p9(): return lambda e: outer_kw(e)
+def p10(): return lambda e: add_to_all(e)
+def p11(): return lambda x: table(x)
+def p12(): return lambda x: five_plus(x)
+def p13(): return lambda e: shifted(e.v)
+def p14(): return lambda e: corrected(e.v)
+def p15(): return lambda e: next_one(e.v)
+def p16(): return lambda e: after_deco(e)
+def p17(): return lambda e: (nothing(e), e.v)
 def d0(ds): return ds.Select(lambda e: ident(e.x))
 def d1(ds): return ds.Select(lambda e: const(e.x))
 def d2(ds): return ds.Select(lambda e: sh(e))
@@ -313,8 +354,10 @@ def p6(): return lambda e: e.jets.Select(lambda j: two(j, e))
 
 def directed(ctx):
     m = modgen.load(DIRECTED, "c05d")
-    env = {n: getattr(m, n) for n in ("ident", "const", "sh", "addy", "two", "outer", "add3", "deep")}
-    tags = ["bare-parameter", "constant-body", "nested-lambda-shadows-parameter", "argument-captured-by-inner-binder", "reordered-keywords", "helper-calls-helper", "call-in-nested-lambda", "curried-two-deep-lambdas-argument-names-innermost", "two-deep-nested-lambdas-argument-names-innermost"]
+    env = {n: getattr(m, n) for n in ("ident", "const", "sh", "addy", "two", "outer", "add3", "deep", "inner_kw", "outer_kw", "add_to_all", "table", "five_plus", "shifted", "corrected", "next_one", "after_deco", "nothing")}
+    tags = ["bare-parameter", "constant-body", "nested-lambda-shadows-parameter", "argument-captured-by-inner-binder", "reordered-keywords", "helper-calls-helper", "call-in-nested-lambda", "curried-two-deep-lambdas-argument-names-innermost", "two-deep-nested-lambdas-argument-names-innermost",
+            "keyword-only-parameter-hides-argument", "default-of-a-lambda-that-stays", "new-name-already-bound-in-scope", "keyword-of-a-call-that-stays", "default-bound-at-definition",
+            "bound-method", "functools-wraps-wrapper", "lambda-on-the-decorator-line", "bare-return"]
     for i, tag in enumerate(tags):
         ctx.case("directed:" + tag, True)
         expected = probe.behaviour(getattr(m, f"p{i}")())
